@@ -58,7 +58,7 @@ def enc_mov_load(r, off):
     return bytes([rex(1, r, 0), 0x8B, 0x80 | ((r & 7) << 3) | 4, 0x24]) + struct.pack("<I", off)
 CALL = bytes([0xE8, 0, 0, 0, 0])
 RET = bytes([0xC3])
-JMP = bytes([0xE9, 0, 0, 0, 0])
+JMP = bytes([0xE9, 0, 0, 0, 1])          # tail call: jmp rel32 to another function (16 MiB ahead: never inside this one)
 NOP = bytes([0x90])
 
 # ---------------------------------------------------------------- functions
@@ -108,7 +108,14 @@ class PeFunc:
 # what a parser sees when it looks at a return address minus one (the last displacement byte of the call)
 FILLERS = [bytes([0x90]), bytes([0x2B, 0xC3]), bytes([0x48, 0x89, 0xD8]), bytes([0x31, 0xC0]), bytes([0x85, 0xC0]),
            bytes([0x48, 0x8B, 0x04, 0x24]), bytes([0x0F, 0x1F, 0x40, 0x00]), bytes([0x29, 0xD8]), bytes([0x21, 0xC8])]
+# branches that stay inside the function (a loop's back edge, the jump over an else arm, a jump to the next
+# instruction): `jmp rel8` / `jmp rel32` are also what a tail call looks like, only the target tells them apart
+# (forward ones only: a filler may be the first instruction of a region, and a jump to the region's first byte is
+# what a recursive tail call looks like)
+LOCAL_JUMPS = [bytes([0xEB, 0x00]), bytes([0xE9, 0, 0, 0, 0])]
 def filler(rng):
+    if rng.chance(1, 5):
+        return Insn("nop", rng.choice(LOCAL_JUMPS))
     return Insn("nop", rng.choice(FILLERS))
 def call(rng):
     # forward and backward calls: the last displacement byte is 0x00 or 0xff in practice
